@@ -405,6 +405,14 @@ def run(rep: Report, tier: str) -> None:
 
     rg = rep.rule("C03.g", "no taxable event of the window is dropped by the filtered view: the entry-set iterator keeps from <= own date <= to (both inclusive)", floor=2)
     c10.check_iterator_window(rep, rg, m, "taxable events dated exactly on a window bound (e.g. a sale on the to-date) would be dropped from the reported taxable events, gain/loss lines and sheets")
+    # "no taxable transaction is dropped ... or reported under another type" also holds for the yearly lines every report prints: their own obligations
+    # (every fraction up to the to-date lands in exactly one line, keyed by its own year / type / term; no order-sensitive grouping) are C06's, restated here
+    from . import c06
+
+    rh = rep.rule("C03.h", "the yearly lines count every reported fraction once, under its own type and year (C06.c, C06.d, C06.g restated)", floor=5)
+    sub6 = Report("C06", tier)
+    c06.run(sub6, tier)
+    rep.absorb(sub6, rh, ("C06.c", "C06.d", "C06.g"), "yearly lines")
 
 
 def _conj(t):
